@@ -311,6 +311,28 @@ func (x *runner) step(forcePath *bool) string {
 		}
 		return "disconnect"
 	case 3: // abandon
+		if r.Intn(4) == 0 {
+			// repeated delivery: abandon a transaction that was already
+			// abandoned / removed (no longer known). Must be a no-op.
+			var gone []*Tx
+			for h, t := range g.Universe {
+				if _, ok := m.Known[h]; !ok && !t.Coinbase {
+					gone = append(gone, t)
+				}
+			}
+			if len(gone) > 0 {
+				sort.Slice(gone, func(i, j int) bool { return gone[i].Seq < gone[j].Seq })
+				t := gone[r.Intn(len(gone))]
+				x.ev("abandon %s again (already forgotten)", t.Short())
+				if err := x.sweep("abandon", func() error { return x.st.Abandon(t) }); err != nil {
+					x.fail(err, "RemoveUnminedTx(repeated)")
+					return ""
+				}
+				x.hit("repeated-events", 1)
+				x.hit("abandon-of-forgotten-tx", 1)
+				return "abandon-again"
+			}
+		}
 		un := m.Unmined()
 		if len(un) == 0 {
 			return ""
